@@ -458,8 +458,8 @@ def c11_9(ctx):
 
 def c11_10(ctx):
     """the summary recomputes every derived key: nothing is remembered under a key that leaves out the xpub, path or script"""
-    from sa.memo import memo_obligation
-    return memo_obligation(ctx, ["psbt", "psbt_helper"], "a derivation checked for one xpub would vouch for another")
+    from sa.memo import cache_obligation
+    return cache_obligation(ctx, ["psbt", "psbt_helper", "hd", "script"], "a derivation checked for one xpub would vouch for another")
 
 
 def _membership_sites(fn, script_attr):
@@ -713,7 +713,23 @@ def c11_14(ctx):
                     detail={"path": cfg.fmt_path(p)})]
 
 
+def c11_16(ctx):
+    """SET-ORDER: no ordered result (list, serialisation, yielded sequence) of the modules this property is anchored in takes its
+    order from the iteration order of a set"""
+    from sa.setorder import setorder_obligation
+    return setorder_obligation(ctx, ["psbt", "psbt_helper", "hd", "script"], "the same inputs give different output from run to run")
+
+
+def c11_17(ctx):
+    """SHARED necessary conditions over the modules this property is anchored in: FALSY-DEFAULT, MUTABLE-DEFAULT, IDENTITY, ALIAS,
+    CTOR-FORWARD (sa/shared.py)"""
+    from sa.shared import shared_obligations
+    return shared_obligations(ctx, ["psbt", "psbt_helper", "hd", "script"], "the result would depend on something other than the arguments and the object's current state")
+
+
 OBLIGATIONS = [
+    ("C11.17", "SHARED", c11_17),
+    ("C11.16", "SET-ORDER", c11_16),
     ("C11.10", "MEMO", c11_10),
     ("C11.9", "GUARD relation", c11_9),
     ("C11.1", "GUARD commitment", c11_1),
